@@ -354,7 +354,7 @@ def check_nested_map(ctx, i):
 
 
 def run(ctx):
-    n = 300 if ctx.tier == "quick" else 1500
+    n = 300 if ctx.tier == "quick" else 9000
     core.WARM_P = 0.0
     if ctx.replay:
         ctx.inconc("C10 replays are re-generated from the seed; re-run the tier with the recorded seed")
